@@ -599,6 +599,18 @@ func genEthTx(t *rapid.T, st *genState) TxSpec {
 		s.To = common.BytesToAddress([]byte{p}).Bytes()
 		s.Note = "precompile"
 		s.Data = genBytes(t, "prePayload", 0, 200)
+		if p == 1 && pick(t, "ecrecoverShape", 2, 1) == 1 {
+			// a well-formed ecrecover request (hash, v = 27/28 right-aligned, r, s in range), as a
+			// contract or wallet would send it, followed by 0..40 further bytes
+			d := make([]byte, 128)
+			copy(d, genBytes(t, "ecHash", 32, 32))
+			d[63] = byte(27 + rapid.IntRange(0, 1).Draw(t, "ecV"))
+			copy(d[64:], genBytes(t, "ecR", 32, 32))
+			copy(d[96:], genBytes(t, "ecS", 32, 32))
+			d[64], d[96] = d[64]&0x7f|1, d[96]&0x3f|1 // non-zero, below the curve order (s in the lower half)
+			s.Data = append(d, genBytes(t, "ecTail", 0, 40)...)
+			s.Note = "precompile-ecrecover-wellformed"
+		}
 		if p == 0xfe {
 			if len(s.Data) >= 32 && pick(t, "feWord", 1, 2) == 1 {
 				copy(s.Data, word(rapid.OneOf(rapid.Uint64Range(0, 220), rapid.SampledFrom([]uint64{0, 19, 20, 1 << 63, math.MaxUint64, math.MaxUint64 - 31, math.MaxUint64 - 11})).Draw(t, "feDlen")))
